@@ -409,7 +409,11 @@ func (dest *destination) implicitWithdraw(logger *slog.Logger, newPath *Path) *P
 				slog.String("Path", path.String()))
 
 			found = i
-			newPath.localID = path.localID
+			// The same path object comes again on a soft reset in: it already
+			// carries its id, and it is read without a lock by table listings.
+			if newPath.localID != path.localID {
+				newPath.localID = path.localID
+			}
 			break
 		}
 	}
